@@ -10,7 +10,8 @@ Open Scope nat_scope.
    receives_named_value), any indentation >= 1, any parent: every list of free-text, item (Parameters, Other Parameters,
    Raises, Warns, Attributes, Functions, Classes, Modules, Returns, Yields, Receives, under every alias in the keyword table
    regenerated from the source, with or without section title; Returns / Yields / Receives sections written the way the
-   option values in force prescribe: WRet) and admonition sections that satisfies the decidable predicate wf_secs parses
+   option values in force prescribe: WRet), Examples (prose and console chunks, doctest flags trimmed or kept as
+   trim_doctest_flags says) and admonition sections, free text with fenced code blocks, that satisfies the decidable predicate wf_secs parses
    back to exactly what was written: same kinds in written order, same titles, item names, annotations (written, else the
    parent's), default values and descriptions (multi-line, blank lines, deeper indentation preserved; blank lines between
    items belong to no description).  wf_secs carries no known-gap exclusion: findings C13-F1, F2 and F9 are repaired in the
@@ -73,8 +74,8 @@ Theorem C13_signature_fallback_returns_modes : forall o c ind m n h t its k, (k 
 Proof. exact google_signature_fallback_returns_modes. Qed.
 Print Assumptions C13_signature_fallback_returns_modes.
 
-(* Non-vacuity of the option modes: a document with single-item unnamed sections is well-formed under
-   returns_multiple_items=False, returns_named_value=False. *)
+(* Non-vacuity of the option modes, fences and Examples: a document with fenced code in its free text, single-item unnamed
+   sections and an Examples section is well-formed under returns_multiple_items=False, returns_named_value=False. *)
 Theorem C13_modes_wf_satisfiable : wf_secs modes_opts modes_ctx modes_doc = true.
 Proof. exact modes_wf. Qed.
 Print Assumptions C13_modes_wf_satisfiable.
